@@ -91,7 +91,9 @@ TEXT = {
                   "project_to_dimension(k) is |g|cos(k*pi/2 - T g) within |g|(1e-10+1e-14) for every k < 2^53 with no growth in k (B); the projection's Cartesian point "
                   "is (a.b^)b^, projection + rejection = a as points, rejection orthogonal to b, Pythagoras (E); in rounded arithmetic the Cartesian components of "
                   "projection and rejection add up to those of a in EVERY branch of the underlying subtraction, incl. a parallel to b "
-                  "(project_add_reject_every_branch_float) (B). "),
+                  "(project_add_reject_every_branch_float); the projection is the vector (a.b^)b^ with a signed length within |a|(1e-10+1e-14) of |a|cos(Tb-Ta) "
+                  "(project_cartesian_float) and the rejection's component along b^ is bounded by twice the subtraction bound plus that accuracy "
+                  "(reject_orthogonal_float) (B). "),
          "note": S_NOTE},
  "C12": {"level": ("Proved: rotation returns the magnitude field itself and the angle sum; reflection never reads the axis length; scale-rotate branch law (G); full turn "
                   "adds exactly 4 blades keeping grade and remainder; rotation carries; reflection result canonical with at least twice the axis's blades (S); in ROUNDED "
@@ -104,7 +106,9 @@ TEXT = {
                   "sqrt(eps)-of-scale bound of the law-of-cosines value through all roundings, within (|a|+|b|)*1.1e-5 of the TRUE Euclidean distance, symmetric and "
                   "obeying the triangle inequality up to those bounds, |a-b| (general branch) within (|a|+|b|)*1.5e-7 of it (B); distance = Euclidean distance (metric "
                   "axioms), = |a-b|, inversion: same ray, |p'-c||p-c| = r^2, circle fixed, the reference inversion is an involution and the code's inverted offset is "
-                  "that reference (E). Partial (explored): the composed float bound on p''-p for nearly coincident points. "),
+                  "that reference (E); inversion in ROUNDED arithmetic (invertCircle_float): result = c + io with io on the ray of the computed offset, |io||p-c| = r^2 "
+                  "within 3*2^-53 relative, offset and result placed within the every-branch C06 bound (B). Partial (explored): the composed float bound on p''-p; "
+                  "offsets below 1e-100. "),
          "note": S_NOTE},
  "C14": {"level": ("Proved: same-angle branch keeps the receiver's angle field; opposite branch: cancellation gives (0.0, new_with_blade(ba+bb)) literally blade ba+bb rem "
                   "0.0, otherwise the larger summand's angle field (G/S); the equality tests are blade-exact so the branches fire only for equal blades / blades exactly "
